@@ -7,7 +7,7 @@ sys.path.insert(0, os.path.dirname(os.path.abspath(__file__)))
 CLOSURE = ["Model/Lock.v", "Proofs/LockP.v", "Proofs/LockPrefix.v"]
 OBLIGATIONS = ["repo_facts_wellformed", "repo_well_locked", "repo_wrappers_registered", "repo_no_escape", "repo_race_free",
                "repo_lock_order_acyclic", "repo_fetchers_confined", "repo_no_blocking_send_under_lock",
-               "repo_no_recursive_lock", "repo_declared_guards_inferred", "repo_notify_after_state"]
+               "repo_no_recursive_lock", "repo_declared_guards_inferred", "repo_notify_after_state", "repo_wrappers_unlock_deferred"]
 L2_OVERLAY = {"internal/layer2/zz_verif.go": os.path.join(vlib.VERIF, "harness/internal/layer2/zz_verif.go")}
 
 
@@ -77,8 +77,14 @@ def run(ctx):
                                                                   for p in pairs(diag.get("D_notify_violations", ""))))
         if diag.get("D_declared_inferred") != "true":
             broken.append("repo_declared_guards_inferred: a declared guarded field is no longer written under its mutex anywhere")
-        if diag.get("D_confined") != "true" or diag.get("D_wired") != "true":
-            broken.append("repo_fetchers_confined: fetchers touching unguarded receiver fields: %s; wired=%s" % (diag.get("D_unconfined"), diag.get("D_wired")))
+        if diag.get("D_confined") != "true" or diag.get("D_wired") != "true" or diag.get("D_closures_confined") != "true":
+            broken.append("repo_fetchers_confined: fetchers touching unguarded receiver fields: %s; wired=%s; function literals used as status fetcher (they run in the status "
+                          "reconcilers, outside the Listener mutex) that touch state the handlers own under that mutex (program, stored as, controller fields): %s"
+                          % (diag.get("D_unconfined"), diag.get("D_wired"), diag.get("D_bad_closures")))
+        if diag.get("D_unlock_deferred") != "true":
+            broken.append("repo_wrappers_unlock_deferred: a Listener wrapper releases the Listener mutex by a plain Unlock() after the handler call instead of a deferred one "
+                          "(a handler panic, recovered by controller-runtime, leaves the mutex held and every later event blocks), or a registered handler is not such a wrapper: %s"
+                          % diag.get("D_wrapper_unlocks"))
         if diag.get("D_send") != "true":
             broken.append("repo_no_blocking_send_under_lock: %s perform a blocking channel send while holding a mutex the channel's consumer acquires "
                           "(defers run LIFO: a defer registered after `defer Unlock()` runs before the unlock)" % diag.get("D_blocking_senders"))
@@ -242,5 +248,5 @@ def run(ctx):
                "race rounds: 240/300 (thorough 1200/1500) generated events per round delivered by 4-8 goroutines through the real k8s.Listener wrappers, 3 reconciler-like goroutines "
                "consuming CountersForPool / GetStatus / PeersForService (+ the spam loop's gratuitous), under go test -race, final state vs serial replay in recorded acquisition order; "
                "non-trivial = final state holds at least one assignment / announcement; plus the eager-status-consumer runs (200/300 events per round delivered one at a time through the wrappers, a consumer that fetches at once on every status event over an unbuffered hand-over, after every handler last published == state) and the spam-queue schedules (announcer built as New() with a small queue and the REAL spamLoop: "
-               "full queue with a waiting handler vs GetStatus/shouldAnnounce, and a re-processing burst across a 1.1 s loop period under a 3 s no-progress watchdog); distinct by seed+state; plus the 11 vm_compute obligations on the facts regenerated from the Go AST",
+               "full queue with a waiting handler vs GetStatus/shouldAnnounce, and a re-processing burst across a 1.1 s loop period under a 3 s no-progress watchdog); distinct by seed+state; plus the 12 vm_compute obligations on the facts regenerated from the Go AST",
                [{"seed": r["in"]["seed"], "workers": r["in"]["workers"], "events": r["in"]["events"]} for r in allrounds[:3]], search=search)
